@@ -1,3 +1,4 @@
 SPECIFICATION Spec
+CONSTANT Focus = "fields"
 INVARIANT OracleOK
 INVARIANT Log
